@@ -393,6 +393,20 @@ def check_r2(prop, tier, seed, spec):
         if not ok:
             raise ToolError("Apalache did not discharge %s of %s:\n%s" % (lm["inv"], lm["spec"], out[-2000:]))
         log("[%s] Apalache: %s of tla/%s holds for all values at the real width (%.0fs)" % (prop, lm["inv"], lm["spec"], dt))
+    for pf in spec.get("tlaps", []):
+        if tier not in pf.get("tiers", ("thorough",)):
+            continue
+        pdir = os.path.join(wdir, "tlaps")
+        shutil.rmtree(pdir, ignore_errors=True)
+        os.makedirs(pdir)
+        shutil.copy(os.path.join(TLA, pf["spec"]), pdir)
+        out, dt = run(["tlapm", "--threads", "8", "--stretch", "4", "--cleanfp", os.path.basename(pf["spec"])], cwd=pdir, timeout=pf.get("timeout", 1800), check=False)
+        m = re.search(r"All (\d+) obligations? proved", out)
+        lemmas.append(dict(spec="tla/" + pf["spec"], proved=bool(m), obligations=int(m.group(1)) if m else 0, tool="TLAPS (tlapm 1.6, SMT/Zenon/Isabelle back ends), arbitrary width", wall=round(dt, 1)))
+        shutil.rmtree(pdir, ignore_errors=True)
+        if not m:
+            raise ToolError("tlapm did not prove tla/%s:\n%s" % (pf["spec"], out[-2000:]))
+        log("[%s] TLAPS: all %s obligations of tla/%s proved (any width) (%.0fs)" % (prop, m.group(1), pf["spec"], dt))
     # report
     for fid, cnt in sorted(known.items()):
         f = [x for x in findings if x["id"] == fid][0]
